@@ -66,7 +66,8 @@ Theorem c04_pool_source_call_order_is_modelled :
   skel_worker_gen = skel_worker_modelled /\ skel_sched_gen = skel_sched_modelled /\
   skel_run_gen = skel_run_modelled /\ skel_act_relaxed_gen = skel_act_relaxed_modelled /\
   skel_act_gen = skel_act_modelled /\ skel_try_inactive_gen = skel_try_inactive_modelled /\
-  skel_set_inactive_gen = skel_set_inactive_modelled /\ skel_is_idle_gen = skel_is_idle_modelled.
+  skel_set_inactive_gen = skel_set_inactive_modelled /\ skel_is_idle_gen = skel_is_idle_modelled /\
+  skel_act_all_gen = skel_act_all_modelled.
 Proof. exact gen_skeleton_is_modelled. Qed.
 Print Assumptions c04_pool_source_call_order_is_modelled.
 
